@@ -3,6 +3,7 @@ package main
 import (
 	"bufio"
 	"bytes"
+	"crypto/md5"
 	"encoding/base64"
 	"encoding/hex"
 	"encoding/json"
@@ -178,7 +179,12 @@ func runCase(c protox.Case) (res protox.Result) {
 	var d caseData
 	json.Unmarshal(c.Data, &d)
 	in, _ := hex.DecodeString(d.Hex)
-	w := world.New(world.Conf{"rtsp.enable": true, "hls.enable": true, "relay_push.enable": d.Surface == "rtmp-push", "relay_push.addr_list": []interface{}{"$W-origin:1935"}})
+	conf := world.Conf{"rtsp.enable": true, "hls.enable": true, "relay_push.enable": d.Surface == "rtmp-push", "relay_push.addr_list": []interface{}{"$W-origin:1935"}}
+	if d.Surface == "rtspauth" {
+		conf["simple_auth.key"] = "q191201771"
+		conf["simple_auth.sub_rtsp_enable"] = true
+	}
+	w := world.New(conf)
 	w.Net.QuiesceTimeout = 20 * time.Second
 	w.EnableRelay(nil)
 	w.DialRaw = map[string]bool{"origin": true}
@@ -205,6 +211,34 @@ func runCase(c protox.Case) (res protox.Result) {
 		if err == nil {
 			victim = p.Conn
 			err = feed(w, victim, in, d.Frag)
+		}
+	case "rtspauth":
+		p := w.NewRtspPeer(rtspUri)
+		victim = p.Conn
+		for _, it := range items(in) {
+			if victim.Closed() {
+				break
+			}
+			h := md5.Sum([]byte("q191201771" + "s"))
+			victim.Feed(bytes.ReplaceAll(it, []byte("$SECRET"), []byte(hex.EncodeToString(h[:]))))
+			if err = w.Settle(); err != nil {
+				break
+			}
+		}
+		if err == nil {
+			// the stream appears: sessions waiting for its description are fed
+			var pub *world.RtmpPeer
+			if pub, err = w.RtmpPublisher("live", "s"); err == nil {
+				for i, k := range []string{"vsh", "ash", "key", "aac"} {
+					m := sw.MakeMsg(k, i, uint32(i*20), 24)
+					csid := 6
+					if m.Type == 8 {
+						csid = 4
+					}
+					pub.SendMsgs(ref.Msg{Csid: csid, Type: m.Type, Msid: 1, Ts: m.Ts, Payload: m.Payload})
+				}
+				err = w.Settle()
+			}
 		}
 	case "rtpcb": // the UDP receive callbacks of an RTSP publisher
 		sdp := sdpAV()
